@@ -257,7 +257,10 @@ fn gen_unit_raw(prop: &str, tier: Tier, rng: &mut Rng) -> Vec<Case> {
             let (vars, cons) = gen_model(rng, &sw);
             let mut ops = model_ops(&vars, &cons);
             for _ in 0..rng.range(1, 4) {
-                ops.push(Op::Assume { preds: gen_assumptions(rng, &vars, 4), core: rng.chance(0.6), interrupt: None });
+                // in a slice the solve under assumptions is interrupted: the assumptions must not
+                // stay behind then either
+                let interrupt = if rng.chance(0.15) { Some(rng.range(0, 8) as u64) } else { None };
+                ops.push(Op::Assume { preds: gen_assumptions(rng, &vars, 4), core: rng.chance(0.6), interrupt });
             }
             // non-retention: a plain solve afterwards answers for the original model
             ops.push(if rng.chance(0.5) { Op::Satisfy { interrupt: None } } else { Op::Iterate { max: usize::MAX, interrupt: None } });
@@ -680,7 +683,7 @@ pub fn gen_history(prop: &str, tier: Tier, rng: &mut Rng, checks: Checks) -> Cas
                 }
             }
             6 => Op::Satisfy { interrupt: if rng.chance(0.25) { Some(rng.range(0, 6) as u64) } else { None } },
-            7 => Op::Assume { preds: gen_assumptions(rng, &vars, 3), core: rng.chance(0.6), interrupt: None },
+            7 => Op::Assume { preds: gen_assumptions(rng, &vars, 3), core: rng.chance(0.6), interrupt: if rng.chance(0.2) { Some(rng.range(0, 6) as u64) } else { None } },
             8 => Op::Iterate { max: if rng.chance(0.3) { usize::MAX } else { rng.range(1, 4) as usize }, interrupt: None },
             9 => Op::Optimise { obj: gen_view(rng, vars.len(), true), minimise: rng.chance(0.5), sat_unsat: allow_sat_unsat && rng.chance(0.5), interrupt: None },
             10 => Op::Satisfy { interrupt: None },
@@ -822,7 +825,7 @@ fn run_unit_interrupt_sweep(prop: &str, tier: Tier, rng: &mut Rng, want_sample: 
     let (vars, cons) = gen_model(rng, &sw);
     let mut ops = model_ops(&vars, &cons);
     let n_model_ops = ops.len();
-    let op = final_solve_op(rng, &vars, &[0, 1, 1, 3, 4]);
+    let op = final_solve_op(rng, &vars, &[0, 1, 1, 2, 3, 4]);
     ops.push(op.clone());
     let between: Option<Con> = if post_between {
         let mut g = ModelGen { rng, sw: &sw, vars: vars.clone(), planted: None };
